@@ -252,8 +252,14 @@ class Folder:
         for v in e.values:
             if isinstance(v, ast.Constant): out.append(v.value)
             else:
-                if v.format_spec is not None or v.conversion != -1: raise Unfoldable('fstring spec')
-                out.append(format(self.expr(v.value, env)))
+                val = self.expr(v.value, env)
+                if v.conversion == 114: val = repr(val)
+                elif v.conversion == 115: val = str(val)
+                elif v.conversion == 97: val = ascii(val)
+                elif v.conversion != -1: raise Unfoldable('fstring conversion')
+                spec = self.expr(v.format_spec, env) if v.format_spec is not None else ''
+                if not isinstance(val, (str, int, float, bool)) and val is not None: raise Unfoldable('fstring of %s' % type(val).__name__)
+                out.append(format(val, spec))
         return ''.join(out)
     def comp(self, gens, env, emit):
         def rec(i, env):
